@@ -2114,7 +2114,7 @@ func (fx *c14Fixtures) illFormed() []*c14BuildCase {
 func c14RandomCase(r *h.Rand, i int, thorough bool) *c14BuildCase {
 	bc := &c14BuildCase{T: "build", Usage: int32(r.Intn(1 << 20)), Wire: []string{"ttlv", "xml", "json"}[i%3]}
 	bc.Ver = [2]int{1, r.Intn(5)}
-	kfPool := []int{0, 1, 2, 4, 8, 16, 32, 3, 5, 6, 33, 48, 63, 7}
+	kfPool := []int{0, 1, 1, 1, 2, 4, 8, 16, 32, 3, 5, 6, 33, 48, 63, 7}
 	bc.KF = kfPool[r.Intn(len(kfPool))]
 	if r.Chance(1, 4) {
 		bc.KF = r.Intn(256)
